@@ -13,6 +13,7 @@ FAMILIES = ['solver', 'curve', 'membrane', 'mixture', 'process']
 BRIDGES = ['br_flux_both', 'br_solve_full_both', 'br_curve_J_both', 'br_curve_none', 'br_idealcurve_both', 'br_pureflux_both',
            'br_act_nonrtl', 'br_act_nouq', 'br_ea_one_unstated', 'br_perm_one_unstated', 'br_proc_iso_both', 'br_flux_', 'br_pureflux_']
 PROPS_V = 'Props/C19.v'
+EXTRA_TARGETS = ['Model/NumCheck.vo']
 BUDGET = {'quick': 400, 'thorough': 8000}
 ORACLE_RULE = ('every public entry point x every invalid-specification class x otherwise valid random arguments; the doubly specified permeate condition '
                'includes the values 0 and 0.0 for either quantity; non-trivial = all (each evaluation is one malformed call)')
@@ -85,6 +86,14 @@ def oracle(rng, tier):
         ok, detail = must_raise(entries[name])
         yield {'kind': name, 'case': {'entry': name, 'mixture': m.name, 'T': T, 'Tp': Tp, 'pp': pp, 'model': ct, 'x': [x.p, x.type]},
                'ok': ok, 'detail': detail}
+
+
+def correspondence(tier, seed):
+    import corr_numeric
+    budget = {'solver': 20, 'curve': 10}
+    if tier == 'thorough':
+        budget = {k: v * 12 for k, v in budget.items()}
+    return corr_numeric.run(seed, budget, nmax=30 if tier == 'quick' else 200, tag='C19')
 
 
 def replay(rep):
